@@ -392,6 +392,9 @@ impl Property for C14 {
             b2.removed_constraints.clear();
             i2.constraints.clear();
             i2.removed_constraints.clear();
+            // hints are not in the statement (an implementation may drop the hints of a relaxed constraint)
+            b2.constraint_hints = None;
+            i2.constraint_hints = None;
             if b2 != i2 {
                 return fail("C14/other-fields-changed", ctxmsg("fields other than the two constraint lists changed".into()));
             }
